@@ -69,7 +69,9 @@ let parse_arg tok =
   let sk = slot_kind slot in
   let k = kind_of sk in
   let o = ref { o_sep = default_sep k; o_clear = false; o_sort = false; o_uniq = false; o_dup_err = false;
-                o_multi = false; o_checks = []; o_fmts = []; o_card = default_card k } in
+                o_multi = false; o_checks = []; o_ftab = []; o_card = default_card k } in
+  (* the setters decide (extracted add_format / add_format_pos): a refusal is a setup error *)
+  let setter r = match r with Ok tab -> tab | _ -> raise Setup in
   let init = ref [] and have_init = ref false in
   List.iter (fun opt ->
       let name, v = match String.index_opt opt '=' with
@@ -103,7 +105,11 @@ let parse_arg tok =
             | CMinLen _, CMinLen _ | CMaxLen _, CMaxLen _ -> true | _ -> false in
           if List.exists (same c) o0.o_checks then raise (Unsupported "two checks of one kind");
           o := { o0 with o_checks = o0.o_checks @ [c] }
-      | "fmt" -> o := { o0 with o_fmts = o0.o_fmts @ [if v = "upper" then FUpper else FLower] }
+      | "fmt" -> o := { o0 with o_ftab = setter (add_format k o0.o_ftab (if v = "upper" then FUpper else FLower)) }
+      | "fmtpos" -> (match p with
+          | [i; f] -> o := { o0 with o_ftab = setter (add_format_pos k o0.o_ftab (z_of_int (int_of_string i))
+                                                       (if f = "upper" then FUpper else FLower)) }
+          | _ -> raise (Unsupported "fmtpos"))
       | "init" -> have_init := true; init := p
       | "desc" | "" -> ()
       | x -> raise (Unsupported ("option " ^ x))) opts;
